@@ -1004,6 +1004,17 @@ class MachineRig:
         self._cases = {}
         self.on_run = None
         self.sctx = None
+        self.teardown_fails = False
+
+    def teardown(self, machine, fails=False):
+        """`machine.teardown()`; `fails`: ctx.maximize_metrics() raises (a target metric that cannot be aggregated)"""
+        from schemathesis.generation.targets import TargetMetricCollector
+
+        def maximize(collector):
+            if fails:
+                raise TypeError("unsupported operand type(s) for +: 'int' and 'NoneType'")
+        with mock.patch.object(TargetMetricCollector, "maximize", maximize):
+            machine.teardown()
 
     def failure(self, f):
         return self.Failure(operation=self.op.label, title="t", message=f"k{f}")
@@ -1120,8 +1131,11 @@ def drive_machine_ops(ops, max_failures=None, unique=False):
                 elif op["op"] == "step":
                     results.append(rig.do_step(machine, op)[0])
                 else:
-                    machine.teardown()
-                    results.append(None)
+                    try:
+                        rig.teardown(machine, op.get("fails", False))
+                        results.append(None)
+                    except TypeError:
+                        results.append("raised")
         res["results"], res["state"] = results, rig.state()
 
     rig.on_run = on_run
@@ -1163,7 +1177,7 @@ def gen_sm_ops(rng):
         for _ in range(rng.randint(0, 4)):
             ops.append({"op": "step", "case": rng.choice([1, 1, 2, 3]), "stopBefore": rng.random() < 0.04, "call": gen_sm_call(rng)})
         if rng.random() < 0.9:
-            ops.append({"op": "teardown"})
+            ops.append({"op": "teardown", "fails": rng.random() < 0.08})
     return ops
 
 
@@ -1227,14 +1241,19 @@ def drive_machine_thread(runs, max_failures=None, unique=False, max_examples=100
                 except RuntimeError:
                     continue
                 try:
-                    for st in sc["steps"]:
-                        res, exc = rig.do_step(machine, st)
-                        if res in ("ki", "baseExc"):
-                            raise exc
-                        if exc is not None:
-                            break
-                finally:
-                    machine.teardown()
+                    try:
+                        for st in sc["steps"]:
+                            res, exc = rig.do_step(machine, st)
+                            if res in ("ki", "baseExc"):
+                                raise exc
+                            if exc is not None:
+                                break
+                    finally:
+                        rig.teardown(machine, sc.get("teardownFails", False))
+                except (KeyboardInterrupt, _Boom):
+                    raise
+                except Exception:  # noqa: BLE001 - Hypothesis records the failing example and goes on
+                    continue
         h = r["hyp"]
         if h == "skipTest":
             raise unittest.SkipTest("no examples")
@@ -1264,7 +1283,7 @@ def gen_sm_runs(rng):
     for i in range(rng.randint(1, 4)):
         scens = []
         for _ in range(rng.randint(0, 3)):
-            scens.append({"setupFails": rng.random() < 0.06,
+            scens.append({"setupFails": rng.random() < 0.06, "teardownFails": rng.random() < 0.06,
                           "steps": [{"case": rng.choice([1, 1, 2, 3]), "stopBefore": rng.random() < 0.03, "call": gen_sm_call(rng, (1, 2, 3, 4))}
                                     for _ in range(rng.randint(0, 3))]})
         x = rng.random()
@@ -1426,6 +1445,21 @@ def stateful_machine_checks(chk, n_ops, n_thread, prop):
         bad = sm_stream_violation(state["out"])
         if bad:
             chk.violation(f"{prop}:stateful:thread-stream-not-well-nested", bad, {**inp, "out": state["out"]})
+        # C12: a stop requested before an iteration begins (before its is_interrupted test): no scenario is started any more
+        k_stop = next((k for k, r in enumerate(inp["runs"]) if r.get("stopBeforeSuite")), None)
+        earlier_stop = k_stop is not None and any(stp.get("stopBefore") or stp["call"] in ("interrupted", "baseExc")
+                                                 for r in inp["runs"][:k_stop] for sc in r["scens"] for stp in sc["steps"])
+        if k_stop is not None and not earlier_stop:
+            seen_suites, after = 0, []
+            for e in state["out"]:
+                if e["k"] == "suiteStarted":
+                    seen_suites += 1
+                if seen_suites > k_stop:
+                    after.append(e)
+            if any(e["k"] == "scenStarted" for e in after):
+                chk.violation(f"{prop}:stateful:scenario-started-after-stop-request",
+                              f"the stop event was set before iteration #{k_stop} began, yet a scenario was started in it: "
+                              f"{[e['k'] for e in after]}", {**inp, "out": state["out"]})
         # C05: a run that Hypothesis ends with a failure / flaky / error never leaves every suite SUCCESS or SKIP
         hyps = [r["hyp"] for r in inp["runs"][:max(used, 1)]]
         closed = [e["st"] for e in state["out"] if e["k"] == "suiteFinished"]
